@@ -89,7 +89,8 @@ def run(rac):
         rac.section("manager", f"managers built by every sequence of <= {L} expression definitions (of {len(alpha)}), "
                     "(two of them reading a nested container as a whole through a function reference), "
                     "plus side-effect-only observer tasks (no targets) on every location and nested container, "
-                    "then every location -- and two members that no task reads one by one -- assigned once (a plain value; on an expression-defined location it replaces the definition); run trace == downstream closure of the declared graph, each once, "
+                    "then every location -- and two members that no task reads one by one -- assigned once (for histories of <= 2 definitions also after a "
+                    "copy() of the manager had every definition removed from it) (a plain value; on an expression-defined location it replaces the definition); run trace == downstream closure of the declared graph, each once, "
                     "producers first unless the declared edge closes a cycle; non-trivial = at least one task ran",
                     f"<= {L} definitions x {len(assigned)} assigned locations")
         for n in range(1, L + 1):
@@ -100,12 +101,19 @@ def run(rac):
                 orc = G.Oracle()
                 if not all(G.legal(orc, o) and (orc.apply(o) or True) for o in ops):
                     continue
-                for loc in assigned:
+                for loc, edited_copy in itertools.product(assigned, (False, True)):
+                    if edited_copy and (n > 2 or loc not in G.LOCS[:6]):
+                        continue
                     # (a location that HAS a definition is assigned too: the value replaces the definition, whose task must not run)
                     w = G.World()
                     try:
                         for o in ops:
                             w.apply(o)
+                        if edited_copy:
+                            # an independent copy of the manager is edited (every definition removed there): the original schedules as before
+                            other = w.m.copy()
+                            for tid in list(other.tasks):
+                                other.unregister(tid)
                         add_observers(w.m, w.r)
                         del trace[:]
                         ref = w.ref(loc)
@@ -124,12 +132,14 @@ def run(rac):
                                         bad = f"{v} ran before its producer {u}"
                     except Exception as ex:  # noqa
                         bad = f"raised {type(ex).__name__}: {ex}"
-                    rac.case((ops, loc), nontrivial=bool(trace), sample=[G.opstr(o) for o in ops] + [f"assign {G.locstr(loc)}"])
+                    rac.case((ops, loc, edited_copy), nontrivial=bool(trace), sample=[G.opstr(o) for o in ops] + (["copy() edited"] if edited_copy else []) + [f"assign {G.locstr(loc)}"])
                     if bad:
                         hist = "; ".join(G.opstr(o) for o in ops)
                         rs = "r" + "".join(s if isinstance(s, str) and s.startswith(".") else f"[{s!r}]" for s in loc)
                         tail = TRACE_TAIL.replace("ASSIGN", f"{rs} = 6.5").replace("REF", rs)
-                        rac.fail(f"manager {hist} assign {G.locstr(loc)}", f"C02 [{hist}] then {G.locstr(loc)} = 6.5: {bad}",
+                        if edited_copy:
+                            tail = "other = m.copy()\nfor tid in list(other.tasks): other.unregister(tid)\n" + tail
+                        rac.fail(f"manager {hist} {'after an edited copy ' if edited_copy else ''}assign {G.locstr(loc)}", f"C02 [{hist}]{' (a copy() of the manager was edited in between)' if edited_copy else ''} then {G.locstr(loc)} = 6.5: {bad}",
                                  G.history_script(list(ops), OBS_SRC + tail), "Manager.set_value")
     finally:
         for cls, o in origs.items():
